@@ -475,18 +475,43 @@ def _self_reads(cls, mname, seen=None):
 
 
 def _reads_on(node, pname, cls, seen):
+    """fields of the object bound to parameter `pname` that the function depends on: direct attribute reads, reads of its
+    own methods, and — when the object is handed on as an argument to another function of the package — what that
+    function reads of it"""
     import ast
     out = set()
+    repo = vc.repo()
     for n in ast.walk(node):
         if isinstance(n, ast.Attribute) and isinstance(n.value, ast.Name) and n.value.id == pname:
             if cls is not None and n.attr in cls.methods:
                 out |= _self_reads(cls, n.attr, seen)
             else:
                 out.add(n.attr)
+        if isinstance(n, ast.Call):
+            for i, a in enumerate(n.args):
+                if not (isinstance(a, ast.Name) and a.id == pname):
+                    continue
+                f = n.func
+                callee = None
+                if isinstance(f, ast.Attribute) and isinstance(f.value, ast.Name) and f.value.id in repo.classes \
+                        and f.attr in repo.classes[f.value.id].methods:
+                    ccls = repo.classes[f.value.id]
+                    callee = ccls.methods[f.attr]
+                    off = 0 if 'staticmethod' in ccls.decorators.get(f.attr, []) else 1
+                    key = ('call', ccls.name, f.attr, i)
+                    if key in seen or callee is node:
+                        continue
+                    seen.add(key)
+                    ps = callee.args.args
+                    if i + off < len(ps):
+                        ann = ps[i + off].annotation
+                        ann = ast.unparse(ann).strip("'\"") if ann is not None else None
+                        if cls is not None and ann == cls.name:      # handed on as an object of the same class
+                            out |= _reads_on(callee, ps[i + off].arg, cls, seen)
     return out
 
 
-def run_cache_transparency():
+def run_cache_transparency(pid=None):
     """functools.cache is treated as transparent by the engine (T7).  That is only sound if a cached function depends
     on its hashable arguments through nothing but the fields their __eq__/__hash__ compare.  Checked syntactically
     for every @cache / @lru_cache function of the package (a 'reads' frame condition)."""
@@ -529,7 +554,9 @@ def run_cache_transparency():
                 r['replays'] = [{'inputs': {'scenario': 'two equal-named enzymes with different specific activity, '
                                                         '1 g -> U for each'}, 'code': code}]
             res.append(r)
+    if pid is not None:
+        res = [dict(r, name=r['name'].replace(f'{PID}/', f'{pid}/', 1)) for r in res]
     if not res:
-        res.append({'name': f'{PID}/cache-transparent', 'case': '(no cached functions)', 'kind': 'property',
+        res.append({'name': f'{pid or PID}/cache-transparent', 'case': '(no cached functions)', 'kind': 'property',
                     'verdict': 'proved', 'secs': 0.0, 'backend': 'syntactic'})
     return res
